@@ -449,3 +449,26 @@ func (f *ledgerFile) Write(p []byte) (int, error) {
 }
 
 var _ = errors.New
+
+// ---- ChopFile: legal short reads on the underlying file ---------------------------------
+
+// ChopFile cuts every Read at a seeded point (n < len(p), nil error: legal for io.Reader).
+type ChopFile struct {
+	afero.File
+	Seed  uint64
+	calls uint64
+	Cuts  int
+}
+
+func (c *ChopFile) Read(p []byte) (int, error) {
+	c.calls++
+	if len(p) > 1 && c.Seed != 0 {
+		h := splitmix(c.Seed + c.calls)
+		if h%3 != 0 {
+			cut := 1 + int(h>>8)%(len(p)-1)
+			c.Cuts++
+			return c.File.Read(p[:cut])
+		}
+	}
+	return c.File.Read(p)
+}
